@@ -205,10 +205,10 @@ func boundsText(thorough bool) string {
 	tri := len(filter(func(p piece) bool { return p.tri }))
 	red := len(filter(func(p piece) bool { return p.red }))
 	if thorough {
-		return fmt.Sprintf("G: vocabulary %d lexemes, 7 separators: singles x 7x7 frames, pairs x 7 separators x 4 frames, triples over %d lexemes x 7 equal separators, triples over %d lexemes x 7x7 separators x 2 frames; B: length <= 6 over %d symbols; X: all 1- and 2-byte strings over the 256 byte values x 4 frames; S: bodies of <= 3 atoms over %d atoms x {interpreted, raw} x {alone, followed by ' x'}",
+		return fmt.Sprintf("G: vocabulary %d lexemes, 7 separators: singles x 7x7 frames, pairs x 7 separators x 4 frames, triples over %d lexemes x 7 equal separators, triples over %d lexemes x 7x7 separators x 2 frames; B: length <= 6 over %d symbols; X: all 1- and 2-byte strings over the 256 byte values x 4 frames; S: bodies of <= 3 atoms over %d atoms x {interpreted, raw} x {alone, followed by ' x'}; E: every escape sequence (backslash + every printable character, all 512 three-digit octal forms, all \\xHH in both cases, \\u / \\U at the encoding boundaries, truncated forms) x 3 prefixes x 7 following characters, interpreted and raw",
 			len(vocabulary), tri, red, len(alphabetB), len(atomsS))
 	}
-	return fmt.Sprintf("G: vocabulary %d lexemes, 7 separators: singles x 7x7 frames, pairs x 7 separators x 4 frames; B: length <= 5 over %d symbols; X: all 1- and 2-byte strings over the 256 byte values x 4 frames; S: bodies of <= 2 atoms over %d atoms x {interpreted, raw} x {alone, followed by ' x'}",
+	return fmt.Sprintf("G: vocabulary %d lexemes, 7 separators: singles x 7x7 frames, pairs x 7 separators x 4 frames; B: length <= 5 over %d symbols; X: all 1- and 2-byte strings over the 256 byte values x 4 frames; S: bodies of <= 2 atoms over %d atoms x {interpreted, raw} x {alone, followed by ' x'}; E: every escape sequence (backslash + every printable character, all 512 three-digit octal forms, all \\xHH in both cases, \\u / \\U at the encoding boundaries, truncated forms) x 3 prefixes x 7 following characters, interpreted and raw",
 		len(vocabulary), len(alphabetB), len(atomsS))
 }
 
@@ -352,6 +352,38 @@ func buildSpaces(thorough bool) []space {
 			}
 		}
 		rec(at[i], 1)
+	}})
+	// E: every escape sequence. A backslash followed by every printable character; every three-digit octal
+	// escape (512, those above \377 are not Go escapes: unspecified, counted); every \xHH; \u / \U at the
+	// boundaries of the UTF-8 encoding lengths, the surrogate range and the end of Unicode; each alone, followed
+	// by a digit / an octal digit / a hex letter (an escape must not eat what follows it), and after an escaped
+	// backslash (then it is no escape at all)
+	var esc []string
+	for c := 0x20; c <= 0x7e; c++ {
+		esc = append(esc, `\`+string(rune(c)))
+	}
+	for o := 0; o < 512; o++ {
+		esc = append(esc, fmt.Sprintf(`\%03o`, o))
+	}
+	for x := 0; x < 256; x++ {
+		esc = append(esc, fmt.Sprintf(`\x%02x`, x), fmt.Sprintf(`\x%02X`, x))
+	}
+	for _, u := range []int{0, 0x41, 0x7f, 0x80, 0x7ff, 0x800, 0xd7ff, 0xd800, 0xdfff, 0xe000, 0xfffd, 0xffff} {
+		esc = append(esc, fmt.Sprintf(`\u%04x`, u), fmt.Sprintf(`\U%08x`, u))
+	}
+	for _, u := range []int{0x10000, 0x1f600, 0x10ffff, 0x110000} {
+		esc = append(esc, fmt.Sprintf(`\U%08x`, u))
+	}
+	esc = append(esc, `\0`, `\00`, `\1`, `\12`, `\x`, `\x4`, `\u`, `\u004`, `\U0000004`)
+	sp = append(sp, space{name: "E-escapes", chunks: len(esc), run: func(i int, emit func(string, []genTok)) {
+		for _, pre := range []string{"", `\\`, "a"} {
+			for _, suf := range []string{"", "0", "7", "8", "a", "f", "g"} {
+				body := pre + esc[i] + suf
+				emit(`"`+body+`"`, nil)
+				emit(`"`+body+`" x`, nil)
+				emit("`"+body+"`", nil)
+			}
+		}
 	}})
 	return sp
 }
